@@ -1808,8 +1808,11 @@ def explore(task):
                 if strict:
                     counts["action_arguments_checked"] += 1
                     if arg_u != r["param"]:
-                        add_viol("action-argument", f"action-argument:{_short(r['to'])}",
-                                 f"`execute {step[1]}(p=$c)` was called with p={arg_u!r}, $c is {r['param']!r}",
+                        # after a turn that was taken back the argument comes from the context over ALL events (those of the
+                        # hidden turn included), the flow is replayed without them: a class of its own
+                        add_viol("action-argument", f"action-argument:{UNDO_SIG}" if r.get("hidden") else f"action-argument:{_short(r['to'])}",
+                                 f"`execute {step[1]}(p=$c)` was called with p={arg_u!r}, $c is {r['param']!r}"
+                                 + (" (the flow is replayed without the hidden turn, the argument is read from the context over all events)" if r.get("hidden") else ""),
                                  ah2, len(h2), k)
                         continue
                 q.append((ah2, h2 + au[1], ref_run(P, ah2, W.tab) if strict else r,
